@@ -12,9 +12,15 @@ Definition case_t := (graph * list bool * list cop * list (list nat) * list (nat
 Definition model_out (c : case_t) : list (list nat) :=
   let '(g, ifs, ops, _, _) := c in crun call (mkCS g ifs []) ops.
 
+(* The separator RegSys.step puts between the results and the called subscribers is the unary
+   number 999999; a case file full of such literals does not fit in memory once evaluated, so the
+   harness writes 10001 for it in the observations and the model's answers are normalised the same
+   way before comparing (every genuine number in an answer is below 10000). *)
+Definition norm1 (x : nat) : nat := if Nat.ltb 10000 x then 10001 else x.
+
 (* the model's answers = the implementation's answers (full run) *)
 Definition check_model (c : case_t) : bool :=
-  let '(_, _, _, obs, _) := c in llnat_eqb (model_out c) obs.
+  let '(_, _, _, obs, _) := c in llnat_eqb (map (map norm1) (model_out c)) obs.
 
 (* the property itself, judged on the implementation's observations only: the answer of every
    probed lookup in the full run equals its answer after the same mutations with no earlier lookup *)
